@@ -12,6 +12,10 @@ MCConfigsSmall ==
       \cup {[ck |-> "int", cv |-> -1, pk |-> "int", pv |-> 1, ws |-> 2, we |-> 3, cm |-> "blank"],
             [ck |-> "bad", cv |-> 0, pk |-> "absent", pv |-> 0, ws |-> 0, we |-> 0, cm |-> "none"]}
 
+(* condition-heavy settings (C10) *)
+MCConfigsCond ==
+    [ck : {"int"}, cv : {-1, 1, 2}, pk : {"int"}, pv : {0, 1}, ws : {0}, we : {0}, cm : {"none", "blank", "expr"}]
+
 (* the single setting in which the pre-fix race is shortest to show *)
 MCConfigsRace == {[ck |-> "int", cv |-> 1, pk |-> "int", pv |-> 0, ws |-> 0, we |-> 0, cm |-> "none"]}
 =============================================================================
